@@ -6,8 +6,9 @@ From PyIpmi Require Import Lib.Res Lib.Bytes Model.Threads.
 Import ListNotations.
 Open Scope N_scope.
 
-Definition mk_progs (l : list (list (N * N))) : list (list treq) :=
-  map (map (fun p => mkTReq (fst p) (snd p))) l.
+(* (netfn, cmd, number of Send Message wrappers) *)
+Definition mk_progs (l : list (list (N * N * N))) : list (list treq) :=
+  map (map (fun p => mkTReq (fst (fst p)) (snd (fst p)) (N.to_nat (snd p)))) l.
 
 (* harness event kinds: 0 read next_sequence_number (value), 1 write (value),
    2 acquire, 3 sendto, 4 recvfrom, 5 recvfrom timed out, 6 release, 7 taken from _q,
@@ -24,7 +25,8 @@ Definition trace_code (tr : list (tid * label)) : list (list N) :=
 Definition ev_code (e : event) : list N :=
   match e with
   | Sent t k s h q => [0; N.of_nat t; N.of_nat k; s; h; q_netfn q; q_cmd q]
-  | Rcvd t r => [1; N.of_nat t; p_seq r; p_netfn r; p_cmd r; p_serial r]
+  | Rcvd t r => if is_ack r then [4; N.of_nat t; p_serial r]   (* acknowledge of datagram n; its rqSeq is not modelled *)
+                else [1; N.of_nat t; p_seq r; p_netfn r; p_cmd r; p_serial r]
   end.
 
 Definition out_code (o : res frame) : option N :=
@@ -39,7 +41,7 @@ Definition lln_eqb := list_eqb (list_eqb N.eqb).
    observed: the step trace [tid; kind; value], the socket log, the outcomes per thread
    (payload serial, None = exception), the final next_sequence_number and session
    sequence number, whether the lock was free at the end *)
-Definition chk_run (maxr : N) (active : bool) (stale lose : list N) (nsn0 s0 : N) (progs : list (list (N * N)))
+Definition chk_run (maxr : N) (active : bool) (stale lose : list N) (nsn0 s0 : N) (progs : list (list (N * N * N)))
            (sched : list N) (tr wire : list (list N)) (outs : list (list (option N)))
            (nsn_end sseq_end : N) (lock_free : bool) : bool :=
   let c := mkCfg (N.to_nat maxr) active stale lose in
